@@ -20,6 +20,7 @@ package main
 import (
 	"errors"
 	"fmt"
+	"io"
 	"sort"
 	"strconv"
 	"strings"
@@ -32,6 +33,7 @@ import (
 	"github.com/ipld/go-ipld-prime/linking"
 	cidlink "github.com/ipld/go-ipld-prime/linking/cid"
 	"github.com/ipld/go-ipld-prime/node/basicnode"
+	"github.com/ipld/go-ipld-prime/storage"
 	"github.com/ipld/go-ipld-prime/storage/memstore"
 	"github.com/ipld/go-ipld-prime/traversal"
 	"github.com/ipld/go-ipld-prime/traversal/selector"
@@ -45,14 +47,120 @@ var linkProto = cidlink.LinkPrototype{Prefix: cid.Prefix{Version: 1, Codec: 0x71
 type graph struct {
 	store *memstore.Store
 	ls    linking.LinkSystem
+	fault string // armed storage fault: the next block write stream fails in this way ("" = none)
+}
+
+// Storage faults: "o" the write opener fails; "c" the commit fails; "w<k>" the k-th Write of the stream
+// returns an error; "s<k>" the k-th Write is short (n-1, nil).  When the stream ends before its k-th
+// Write the commit fails instead, so that an armed fault always makes that one Store fail.
+type faultWriter struct {
+	w     io.Writer
+	mode  byte
+	k     int
+	fired bool
+}
+
+func (f *faultWriter) Write(p []byte) (int, error) {
+	if !f.fired {
+		f.k--
+		if f.k <= 0 {
+			f.fired = true
+			if f.mode == 'w' {
+				return 0, errors.New("injected write fault")
+			}
+			if len(p) > 0 {
+				n, _ := f.w.Write(p[:len(p)-1])
+				return n, nil
+			}
+		}
+	}
+	return f.w.Write(p)
 }
 
 func newGraph() *graph {
 	g := &graph{store: &memstore.Store{}}
 	g.ls = cidlink.DefaultLinkSystem()
 	g.ls.SetReadStorage(g.store)
-	g.ls.SetWriteStorage(g.store)
+	g.ls.StorageWriteOpener = func(lctx linking.LinkContext) (io.Writer, linking.BlockWriteCommitter, error) {
+		fault := g.fault
+		g.fault = ""
+		if fault == "o" {
+			return nil, nil, errors.New("injected opener fault")
+		}
+		w, commit, err := storage.PutStream(lctx.Ctx, g.store)
+		if err != nil {
+			return nil, nil, err
+		}
+		if fault == "" {
+			return w, func(l datamodel.Link) error { return commit(l.Binary()) }, nil
+		}
+		fw := &faultWriter{w: w, mode: fault[0], k: 1 << 30}
+		if fault[0] == 'w' || fault[0] == 's' {
+			fw.k, _ = strconv.Atoi(fault[1:])
+		}
+		return fw, func(l datamodel.Link) error {
+			if !fw.fired {
+				return errors.New("injected commit fault")
+			}
+			return commit(l.Binary())
+		}, nil
+	}
 	return g
+}
+
+// fakeLink is a link that is not a CID: the dag-cbor encoder refuses it.  Its binary form starts with
+// a zero byte (no CID does), which is how the model recognises a link the block codec cannot encode.
+type fakeLink struct{ bin string }
+
+func (l fakeLink) Prototype() datamodel.LinkPrototype { return linkProto }
+func (l fakeLink) String() string                     { return "notacid:" + lib.Hex(l.bin) }
+func (l fakeLink) Binary() string                     { return l.bin }
+
+const refusedBin = "\x00nc"
+
+// buildConst is lib.BuildBasic for callback values, which may hold refused links.
+func buildConst(v *lib.Val) (datamodel.Node, error) {
+	nb := basicnode.Prototype.Any.NewBuilder()
+	if err := assembleConst(nb, v); err != nil {
+		return nil, err
+	}
+	return nb.Build(), nil
+}
+
+func assembleConst(na datamodel.NodeAssembler, v *lib.Val) error {
+	switch v.Kind {
+	case lib.KLink:
+		if strings.HasPrefix(v.S, "\x00") {
+			return na.AssignLink(fakeLink{v.S})
+		}
+	case lib.KList:
+		la, err := na.BeginList(int64(len(v.L)))
+		if err != nil {
+			return err
+		}
+		for _, x := range v.L {
+			if err := assembleConst(la.AssembleValue(), x); err != nil {
+				return err
+			}
+		}
+		return la.Finish()
+	case lib.KMap:
+		ma, err := na.BeginMap(int64(len(v.M)))
+		if err != nil {
+			return err
+		}
+		for _, e := range v.M {
+			va, err := ma.AssembleEntry(e.K)
+			if err != nil {
+				return err
+			}
+			if err := assembleConst(va, e.V); err != nil {
+				return err
+			}
+		}
+		return ma.Finish()
+	}
+	return lib.Assemble(na, v)
 }
 
 func (g *graph) prog() traversal.Progress {
@@ -174,9 +282,10 @@ func strs(p ...string) []pseg {
 }
 
 type step struct {
-	path []pseg
-	fn   string // id | del | wrap | c:<val>
-	cp   bool
+	path  []pseg
+	fn    string // id | del | wrap | c:<val>
+	cp    bool
+	fault string // storage fault armed for this transform ("" = none), see faultWriter
 }
 
 func pathText(p []pseg) string {
@@ -220,12 +329,19 @@ func (s step) text() string {
 	if s.cp {
 		cp = "1"
 	}
+	if s.fault != "" {
+		cp += "!" + s.fault
+	}
 	return pathText(s.path) + "," + s.fn + "," + cp
 }
 
 func parseStep(t string) step {
 	f := strings.SplitN(t, ",", 3)
-	return step{path: parsePath(f[0]), fn: f[1], cp: f[2] == "1"}
+	st := step{path: parsePath(f[0]), fn: f[1], cp: strings.HasPrefix(f[2], "1")}
+	if i := strings.IndexByte(f[2], '!'); i >= 0 {
+		st.fault = f[2][i+1:]
+	}
+	return st
 }
 
 func mkPath(p []pseg) datamodel.Path {
@@ -267,7 +383,7 @@ func transformFn(fn string, log *[]string) (traversal.TransformFn, error) {
 		if err != nil {
 			return nil, err
 		}
-		cnode, err = lib.BuildBasic(v)
+		cnode, err = buildConst(v)
 		if err != nil {
 			return nil, err
 		}
@@ -315,6 +431,8 @@ func errClass(err error) string {
 		return "err:bounds"
 	case strings.Contains(m, "did not exist (and createParents was false)"):
 		return "err:noparent"
+	case strings.Contains(m, "error storing transformed node"):
+		return "err:store"
 	case strings.Contains(m, "could not load link"):
 		return "err:load"
 	}
@@ -343,15 +461,20 @@ func runFT(g *graph, root *lib.Val, steps []step) string {
 			return "builderr"
 		}
 		var res datamodel.Node
+		g.fault = st.fault
 		err = lib.Safely(func() error {
 			var e error
 			res, e = g.prog().FocusedTransform(cur, mkPath(st.path), fn, st.cp)
 			return e
 		})
+		g.fault = ""
 		cb := "#cb:" + strings.Join(log, ",")
 		if err != nil {
 			outs = append(outs, errClass(err)) // what the callback saw is reported for completed transforms only
-			break
+			if lib.IsPanic(err) {
+				break
+			}
+			continue // a failed transform must leave everything as it was: the run goes on from the same tree
 		}
 		d := lib.Dump(res)
 		outs = append(outs, "ok:"+d+cb)
@@ -856,7 +979,11 @@ func genStep0(g *graph, r *lib.Rng, cur *lib.Val) step {
 		ex = at(ex, base)
 	}
 	p, fn, cp := genStepIn(g, r, ex)
-	return step{path: typed(r, append(append([]string(nil), base...), p...)), fn: fn, cp: cp}
+	st := step{path: typed(r, append(append([]string(nil), base...), p...)), fn: fn, cp: cp}
+	if r.Intn(14) == 0 { // the storage fails during this transform
+		st.fault = []string{"o", "c", "w1", "w2", "w3", "w7", "s1", "s2", "s5"}[r.Intn(9)]
+	}
+	return st
 }
 
 func genStepIn(g *graph, r *lib.Rng, ex *lib.Val) ([]string, string, bool) {
@@ -949,7 +1076,17 @@ func genStepIn(g *graph, r *lib.Rng, ex *lib.Val) ([]string, string, bool) {
 		}
 	}
 	var fn string
-	switch x := r.Intn(20); {
+	switch x := r.Intn(22); {
+	case x >= 20: // a value the block codec refuses (a link that is not a CID), alone or inside a container
+		ref := lib.Link(refusedBin)
+		switch r.Intn(3) {
+		case 0:
+			fn = "c:" + ref.Text()
+		case 1:
+			fn = "c:" + lib.Map(lib.Entry{K: "a", V: r.GenVal(smallCfg, 0)}, lib.Entry{K: "zz", V: ref}).Text()
+		default:
+			fn = "c:" + lib.List(r.GenVal(smallCfg, 0), ref, lib.Int(1)).Text()
+		}
 	case x < 9:
 		fn = "c:" + r.GenVal(smallCfg, 0).Text()
 	case x < 10: // a link to an existing block as the new value
@@ -1014,7 +1151,7 @@ func emitWT(out *lib.Out, id string, g *graph, blocks string, root *lib.Val, s *
 func probe() string {
 	run := func(root *lib.Val, path []string, fn string, cp bool) string {
 		g := newGraph()
-		o := strings.SplitN(runFT(g, root, []step{{strs(path...), fn, cp}}), "||", 2)[0]
+		o := strings.SplitN(runFT(g, root, []step{{strs(path...), fn, cp, ""}}), "||", 2)[0]
 		return strings.SplitN(o, "#", 2)[0]
 	}
 	bit := func(b bool) string {
@@ -1075,27 +1212,27 @@ func corpus(out *lib.Out) {
 	l3 := lib.List(lib.Int(10), lib.Int(11), lib.Int(12))
 	m3 := lib.Map(e("x", lib.Int(1)), e("l", lib.List(lib.Int(5))), e("a", lib.Str("s")))
 	// witnesses of the findings
-	ft(l3, nil, step{strs("1"), "del", false})
-	ft(l3, nil, step{strs("-"), "del", false})
-	ft(m3, nil, step{strs("zz"), "del", false})
-	ft(m3, nil, step{strs("p", "q", "r"), "del", true})
-	ft(l3, nil, step{strs("-5"), c7, false})
-	ft(l3, nil, step{strs("-", "a", "b"), c7, false})
-	ft(lib.Null(), nil, step{nil, "id", false})
+	ft(l3, nil, step{strs("1"), "del", false, ""})
+	ft(l3, nil, step{strs("-"), "del", false, ""})
+	ft(m3, nil, step{strs("zz"), "del", false, ""})
+	ft(m3, nil, step{strs("p", "q", "r"), "del", true, ""})
+	ft(l3, nil, step{strs("-5"), c7, false, ""})
+	ft(l3, nil, step{strs("-", "a", "b"), c7, false, ""})
+	ft(lib.Null(), nil, step{nil, "id", false, ""})
 	// conforming behaviour
 	for _, s := range []string{"1", "01", "+1", "-0", "3", "x", "", "9223372036854775808", "-"} {
-		ft(l3, nil, step{strs(s), c7, false})
+		ft(l3, nil, step{strs(s), c7, false, ""})
 	}
-	ft(m3, nil, step{strs("x"), "del", false})
-	ft(m3, nil, step{strs("zz"), c7, false})
-	ft(m3, nil, step{strs("p", "q"), c7, false})
-	ft(m3, nil, step{strs("p", "q"), c7, true})
-	ft(m3, nil, step{strs("x", "y"), c7, true})
-	ft(m3, nil, step{strs("l", "0"), "wrap", false}, step{strs("l", "0", "0"), "id", false}, step{strs("l", "-"), c7, false})
-	ft(m3, nil, step{nil, c7, false})
-	ft(m3, nil, step{nil, "id", false})
-	ft(m3, nil, step{nil, "del", false})
-	ft(lib.Int(3), nil, step{nil, "c:i8000000000000000", false})
+	ft(m3, nil, step{strs("x"), "del", false, ""})
+	ft(m3, nil, step{strs("zz"), c7, false, ""})
+	ft(m3, nil, step{strs("p", "q"), c7, false, ""})
+	ft(m3, nil, step{strs("p", "q"), c7, true, ""})
+	ft(m3, nil, step{strs("x", "y"), c7, true, ""})
+	ft(m3, nil, step{strs("l", "0"), "wrap", false, ""}, step{strs("l", "0", "0"), "id", false, ""}, step{strs("l", "-"), c7, false, ""})
+	ft(m3, nil, step{nil, c7, false, ""})
+	ft(m3, nil, step{nil, "id", false, ""})
+	ft(m3, nil, step{nil, "del", false, ""})
+	ft(lib.Int(3), nil, step{nil, "c:i8000000000000000", false, ""})
 	// through links
 	inner := lib.Map(e("b", lib.Int(1)), e("a", lib.List(lib.Int(5), lib.Bytes("q"))))
 	g0 := newGraph()
@@ -1104,29 +1241,29 @@ func corpus(out *lib.Out) {
 	mc, _ := g0.put(mid)
 	outer := lib.Map(e("k", lib.Link(mc)), e("n", lib.Int(3)), e("direct", lib.Link(ic)))
 	bl := []*lib.Val{inner, mid}
-	ft(outer, bl, step{strs("k", "in", "a", "0"), c7, false})
-	ft(outer, bl, step{strs("k", "in", "0new"), c7, false})
-	ft(outer, bl, step{strs("k", "in"), c7, false})
-	ft(outer, bl, step{strs("k", "in", "a", "0"), "id", false})
-	ft(outer, bl, step{strs("k", "in", "a", "0"), "del", false})
-	ft(outer, bl, step{strs("k", "in", "zz"), "del", false})
-	ft(outer, bl, step{strs("k", "in", "a", "-"), c7, false}, step{strs("direct", "b"), "wrap", false}, step{strs("k", "z"), "del", false})
-	ft(lib.Link(mc), bl, step{strs("in", "b"), c7, false})
-	ft(lib.Link(mc), bl, step{nil, "id", false})
-	ft(lib.Map(e("d", lib.Link("\x01\x71\x12\x20"+strings.Repeat("x", 32)))), nil, step{strs("d", "a"), c7, true})
+	ft(outer, bl, step{strs("k", "in", "a", "0"), c7, false, ""})
+	ft(outer, bl, step{strs("k", "in", "0new"), c7, false, ""})
+	ft(outer, bl, step{strs("k", "in"), c7, false, ""})
+	ft(outer, bl, step{strs("k", "in", "a", "0"), "id", false, ""})
+	ft(outer, bl, step{strs("k", "in", "a", "0"), "del", false, ""})
+	ft(outer, bl, step{strs("k", "in", "zz"), "del", false, ""})
+	ft(outer, bl, step{strs("k", "in", "a", "-"), c7, false, ""}, step{strs("direct", "b"), "wrap", false, ""}, step{strs("k", "z"), "del", false, ""})
+	ft(lib.Link(mc), bl, step{strs("in", "b"), c7, false, ""})
+	ft(lib.Link(mc), bl, step{nil, "id", false, ""})
+	ft(lib.Map(e("d", lib.Link("\x01\x71\x12\x20"+strings.Repeat("x", 32)))), nil, step{strs("d", "a"), c7, true, ""})
 	// int-stored path segments against numeric-looking map keys and list positions
 	mnum := lib.Map(e("1", lib.Int(10)), e("01", lib.Int(11)), e("x", lib.Int(12)), e("", lib.Int(13)), e("-1", lib.Int(14)))
 	for _, fn := range []string{"del", c7, "id", "wrap"} {
-		ft(mnum, nil, step{[]pseg{si(1)}, fn, false})
-		ft(mnum, nil, step{[]pseg{ss("1")}, fn, false})
-		ft(mnum, nil, step{[]pseg{ss("01")}, fn, false})
-		ft(mnum, nil, step{[]pseg{si(7)}, fn, false})
-		ft(mnum, nil, step{[]pseg{si(-1)}, fn, false}) // a negative int is the string-stored ""
-		ft(l3, nil, step{[]pseg{si(1)}, fn, false})
-		ft(l3, nil, step{[]pseg{si(3)}, fn, false})
+		ft(mnum, nil, step{[]pseg{si(1)}, fn, false, ""})
+		ft(mnum, nil, step{[]pseg{ss("1")}, fn, false, ""})
+		ft(mnum, nil, step{[]pseg{ss("01")}, fn, false, ""})
+		ft(mnum, nil, step{[]pseg{si(7)}, fn, false, ""})
+		ft(mnum, nil, step{[]pseg{si(-1)}, fn, false, ""}) // a negative int is the string-stored ""
+		ft(l3, nil, step{[]pseg{si(1)}, fn, false, ""})
+		ft(l3, nil, step{[]pseg{si(3)}, fn, false, ""})
 	}
-	ft(lib.Map(e("m", mnum)), nil, step{[]pseg{ss("m"), si(1)}, "del", false}, step{[]pseg{ss("m"), si(1)}, c7, false}, step{[]pseg{ss("m"), si(1), si(0)}, c7, true})
-	ft(lib.List(mnum, l3), nil, step{[]pseg{si(0), si(1)}, "del", false}, step{[]pseg{si(1), si(2)}, "wrap", false})
+	ft(lib.Map(e("m", mnum)), nil, step{[]pseg{ss("m"), si(1)}, "del", false, ""}, step{[]pseg{ss("m"), si(1)}, c7, false, ""}, step{[]pseg{ss("m"), si(1), si(0)}, c7, true, ""})
+	ft(lib.List(mnum, l3), nil, step{[]pseg{si(0), si(1)}, "del", false, ""}, step{[]pseg{si(1), si(2)}, "wrap", false, ""})
 	// indirection blocks: a block that is nothing but a link (chains of them)
 	g1 := newGraph()
 	i1, _ := g1.put(lib.Link(ic))
@@ -1135,14 +1272,25 @@ func corpus(out *lib.Out) {
 	ind := []*lib.Val{inner, lib.Link(ic), lib.Link(i1), lib.Link(i2)}
 	for _, top := range []string{i1, i2, i3} {
 		o := lib.Map(e("k", lib.Link(top)), e("n", lib.Int(3)))
-		ft(o, ind, step{strs("k", "a", "0"), c7, false})
-		ft(o, ind, step{strs("k", "zz"), c7, false})
-		ft(o, ind, step{strs("k", "b"), "del", false})
-		ft(o, ind, step{strs("k", "a", "0"), "id", false})
-		ft(o, ind, step{strs("k"), "id", false})
-		ft(o, ind, step{strs("k", "a", "-"), c7, false}, step{strs("k", "a", "2"), "wrap", false})
-		ft(lib.Link(top), ind, step{strs("b"), c7, false})
+		ft(o, ind, step{strs("k", "a", "0"), c7, false, ""})
+		ft(o, ind, step{strs("k", "zz"), c7, false, ""})
+		ft(o, ind, step{strs("k", "b"), "del", false, ""})
+		ft(o, ind, step{strs("k", "a", "0"), "id", false, ""})
+		ft(o, ind, step{strs("k"), "id", false, ""})
+		ft(o, ind, step{strs("k", "a", "-"), c7, false, ""}, step{strs("k", "a", "2"), "wrap", false, ""})
+		ft(lib.Link(top), ind, step{strs("b"), c7, false, ""})
 	}
+	// a failed transform (the codec or the storage refuses a block) followed by valid ones
+	refused := "c:" + lib.Map(e("a", lib.Int(1)), e("zz", lib.Link(refusedBin))).Text()
+	good := step{strs("k", "in", "a", "0"), c7, false, ""}
+	ft(outer, bl, step{strs("k", "in", "zz"), refused, false, ""}, good, step{strs("direct", "b"), "wrap", false, ""})
+	ft(outer, bl, step{strs("k", "in", "a", "1"), "c:" + lib.Link(refusedBin).Text(), false, ""}, good)
+	ft(outer, bl, step{strs("n"), refused, false, ""}, good, step{strs("n", "zz", "x"), c7, false, ""}, step{strs("k", "z"), "c:" + lib.Link(refusedBin).Text(), false, ""}, good)
+	for _, f := range []string{"o", "c", "w1", "w2", "w5", "w99", "s1", "s3"} {
+		ft(outer, bl, step{strs("k", "in", "a", "0"), "c:i8", false, f}, good, step{strs("k", "z"), "del", false, ""})
+		ft(outer, bl, good, step{strs("k", "in", "b"), "id", false, f}, step{strs("k", "in", "b"), "wrap", false, ""})
+	}
+	ft(m3, nil, step{strs("x"), c7, false, "w1"}, step{strs("l", "-"), c7, false, "c"}) // no store is attempted: the fault is not hit
 	// walking transforms
 	wn := 0
 	wt := func(root *lib.Val, blocks []*lib.Val, st string, fn string) {
@@ -1273,7 +1421,10 @@ func main() {
 		var steps []step
 		scratch := newGraph()
 		if err := loadBlocks(scratch, blocks); err != nil {
-			panic(err)
+			// the blocks just stored do not read back (or re-store under another link): report the graph
+			// as it is, the oracle flags the unreadable block
+			emitFT(out, fmt.Sprintf("g%d", i), g, blocks, root, []step{{nil, "id", false, ""}})
+			continue
 		}
 		curNode, err := lib.BuildBasic(root)
 		if err != nil {
@@ -1288,13 +1439,24 @@ func main() {
 				break
 			}
 			var res datamodel.Node
+			scratch.fault = st.fault
 			err = lib.Safely(func() error {
 				var e error
 				res, e = scratch.prog().FocusedTransform(curNode, mkPath(st.path), fn, st.cp)
 				return e
 			})
+			scratch.fault = ""
+			if err != nil && !lib.IsPanic(err) {
+				// a failed transform leaves everything as it was and the run goes on; store failures are
+				// always kept (the transforms after them are what matters), other errors half of the time
+				if errClass(err) == "err:store" || r.Bool() {
+					steps = append(steps, st)
+					j++
+				}
+				continue
+			}
 			if err != nil || strings.Contains(lib.Dump(res), "!") {
-				// a failing step ends the run: keep it only sometimes, so that longer runs are common
+				// a panic or a nil node ends the run: keep it only sometimes
 				if r.Intn(5) < 2 || tries == 11 {
 					steps = append(steps, st)
 					break
